@@ -7,7 +7,7 @@ cd /verif || exit 2
 if [ -n "$(git -C /repo status --porcelain --untracked-files=no)" ]; then
     echo "refusing to run: /repo has uncommitted changes"; exit 2
 fi
-restore() { git -C /repo checkout -- . ; }
+restore() { git -C /repo checkout -- . ; git -C /repo clean -fdq src tests ; }
 trap 'restore; exit 2' INT TERM
 if [ $# -gt 0 ]; then patches="$*"; else patches="$(ls benign/*.patch)"; fi
 bad=0
